@@ -205,7 +205,7 @@ macro_rules! range_row {
                     bound_bits += prec as f64 - (p as f64).log2() + (1.0 + eps).log2();
                     // the occupied size, either as reported or as counted on the temporary view of the live encoder
                     let words_now = if kfrac % 2 == 1 && !adversarial { enc.get_compressed().len() } else { enc.num_words() };
-                    let bits = (words_now * wbits) as f64;
+                    let bits = if kfrac % 4 == 2 { enc.num_bits() as f64 } else { (words_now * wbits) as f64 };
                     let bound = bound_bits + (sbits + 2 * wbits) as f64 + 1e-9 * n as f64 + 1e-6;
                     vcheck!(bits <= bound, "C12/range_bits_exceed_bound", "after {} symbols: {} bits > bound {:.3}", n, bits, bound);
                     let wmax = n + sbits / wbits + 2;
